@@ -34,7 +34,12 @@ func init() {
 func runC09(c *fw.Ctx, idx int) fw.Result {
 	var res fw.Result
 	r := fw.NewRng(c.Seed, "C09", idx)
-	in := gen.MakeUpdown(r, gen.UpdownProfile{MaxQueries: 6, MaxTargets: 30, PAmbTract: 0.35, MultiHit: true})
+	prof := gen.UpdownProfile{MaxQueries: 6, MaxTargets: 30, PAmbTract: 0.35, MultiHit: true}
+	if idx%25 == 7 {
+		// more queries than any channel of the pipeline holds (NumCPU, NumCPU+50)
+		prof.MaxQueries = r.Range(20, 120)
+	}
+	in := gen.MakeUpdown(r, prof)
 	o, mode := randomUDOpts(r, in)
 	W := len(in.Ref)
 	refTxt := gen.RefFasta("root", in.Ref, gen.PickLineWidth(r, W))
@@ -109,11 +114,11 @@ func runC09(c *fw.Ctx, idx int) fw.Result {
 			} else {
 				os.Remove(op)
 			}
-			br := fw.RunBin(c.Bin, []string{"updown", "list", "-r", rp, "-q", filepath.Join(d, lf[0]), "-o", op}, nil, nil, "", 60*time.Second)
+			br := fw.RunBin(c.Bin, []string{"updown", "list", "-r", rp, "-q", filepath.Join(d, lf[0]), "-o", op}, nil, nil, "", 40*time.Second)
 			res.Evals++
 			got, _ := os.ReadFile(op)
 			if br.TimedOut {
-				res.Inconclusive = append(res.Inconclusive, "binary watchdog fired")
+				binHang(&res, br, "updown list", files, []string{"updown", "list", "-o", lf[1]})
 			} else if br.Exit != 0 || string(got) != lf[2] {
 				f := cloneFiles(files)
 				f["binary_list_output.csv"] = string(got)
@@ -139,11 +144,11 @@ func runC09(c *fw.Ctx, idx int) fw.Result {
 		}
 		var first []byte
 		for i, pr := range [][2]string{{qf, tf}, {qc, tc}, {qc, tf}, {qf, tc}} {
-			br := fw.RunBin(c.Bin, append(append([]string{}, base...), "-q", pr[0], "-t", pr[1]), nil, nil, "", 60*time.Second)
+			br := fw.RunBin(c.Bin, append(append([]string{}, base...), "-q", pr[0], "-t", pr[1]), nil, nil, "", 40*time.Second)
 			res.Evals++
 			res.Count("binary_runs", 1)
 			if br.TimedOut {
-				res.Inconclusive = append(res.Inconclusive, "binary watchdog fired")
+				binHang(&res, br, "topranking "+filepath.Base(pr[0])+"/"+filepath.Base(pr[1]), files, base)
 				break
 			}
 			if br.Exit != 0 {
